@@ -147,17 +147,15 @@ HardenPyyaml = CoreCodemod(
         rules:
             - pattern-either:
               - patterns:
-                  - pattern: yaml.load(...)
+                  - pattern: yaml.load($ARG)
                   - pattern-inside: |
                       import yaml
                       ...
-                      yaml.load($ARG)
               - patterns:
-                  - pattern: yaml.load(...)
+                  - pattern: yaml.load(...,$ARG)
                   - pattern-inside: |
                       import yaml
                       ...
-                      yaml.load(...,$ARG)
                   - metavariable-pattern:
                       metavariable: $ARG
                       patterns:
@@ -167,11 +165,10 @@ HardenPyyaml = CoreCodemod(
                             - pattern: yaml.FullLoader
                             - pattern: yaml.UnsafeLoader
               - patterns:
-                  - pattern: yaml.load(...)
+                  - pattern: yaml.load(...,Loader=$ARG)
                   - pattern-inside: |
                       import yaml
                       ...
-                      yaml.load(...,Loader=$ARG)
                   - metavariable-pattern:
                       metavariable: $ARG
                       patterns:
